@@ -11,8 +11,15 @@ Design notes (DESIGN.md section 4, C29):
   * R3 is the design's R2: the on-demand recalculation edge (_use_node -> _recompute) is cut under
     the stated assumption "engine at rest => recompute_map empty", checked as the post-condition
     shape of a successful apply_user_actions.
+  * R4 (added): the guard of R2 only helps if _undo_to_checkpoint reverts the right actions: the
+    slice of out_actions.undo it replays starts at the checkpoint component that *is* the undo
+    length (read from _get_undo_checkpoint's own tuple), runs to the end and is replayed whole.
+  * R3 also decides that the auto-removal pass is repeated after every recalculation until it
+    reports nothing: the property's observable "a following Calculate emits no changes" needs an
+    engine at rest with nothing queued, not only an empty recompute_map.
   Attribute reads that run code (Record fields, Engine.autocomplete_context) are invisible to a
   call graph; the ones the read-only entry points rely on are listed as explicit seeds below.
+  R2-R4 are decided on the inlined, alias-normalised form of the anchored functions (_h_A.py).
 """
 import ast
 from ..fn import World
